@@ -201,7 +201,7 @@ def r2_guards(ctx, P):
                 n_unc += 1
                 ctx.unclass(R, b.path, f"critical pair with callback `{name}` is not tabled (guards dropped on unwind: {sorted(gt)})")
     nodef = "nodefault" in (ctx.config or "")
-    missing = [GUARDED[k][0] for k in range(len(GUARDED)) if k not in seen_guard_rows and not (nodef and "plice" in GUARDED[k][0])]
+    missing = [GUARDED[k][0] for k in range(len(GUARDED)) if k not in seen_guard_rows and not (nodef and ("plice" in GUARDED[k][0] or "bump_vec::drain::Drain" in GUARDED[k][0]))]
     for m in missing:
         ctx.need(False, R, f"tabled critical section {m} (no critical pair found for it any more)")
     ctx.floor(R, "guarded critical (body, callback) pairs", n_guard, 13 if nodef else 15)
